@@ -16,10 +16,26 @@
   Answer `M <model outcome> ;; S <spec outcome>`, outcome = `ok <orig|-> <n> <words…>` | `reject`
   (`panic` for a model panic; with two texts whose outcomes differ, `layout-diff <o₁> ## <o₂>`;
   `S outside` when the program is outside the specification's domain — a generator error).
+
+  Second specification-side computation (ties `Spec.render` to the correspondence): the abstract
+  program is rendered by the SPECIFICATION's `render` under the canonical layout `Layout.canon`, the
+  result is assembled by the model and must give `Spec.Prog.image` (theorem
+  `Lace.C01.assemble_image_render`; on rejected programs the model must reject as well).  A
+  disagreement replaces the `S` answer by `spec-render-mismatch <model(render L0 P)> ## <spec(P)>`.
+  Programs the canonical layout cannot write (`canonOk`: a string body with a raw quote / line feed,
+  `br` without condition, a full image of 65,535 words followed by anything but `.blkw 0`) are skipped.
+
+  Third computation (ties the HARNESS renderer to `Spec.render`): for every text of a program the
+  specification accepts, a layout is read off the text (`Driver/Layout.lean`) and validated by
+  evaluating `render L P = text ∧ L.ok P`; then the text provably lies in the range of `Spec.render`
+  and `assemble_image_render` applies to it.  A text outside the range turns the `S` answer into
+  `outside-render-range` (programs that are not `Prog.renderable` are exempt).
 -/
 import Driver.Proto
 import Driver.Asm
 import Lace.Spec.Prog
+import Lace.Spec.Render
+import Driver.Layout
 open Lace Lace.Driver Lace.Asm
 
 namespace Lace.Driver.Enc
@@ -111,6 +127,25 @@ def specOutcome (flag : Bool) (P : Prog) : String :=
   | some (o, ws) => showImage o ws
   | none => "reject"
 
+/-- the canonical layout is a well-formed layout of `P` (`Layout.ok` without the quadratic check
+that distinct labels have distinct names: `canonName` is `L<decimal id>`) -/
+def canonOk (P : Prog) : Bool :=
+  P.syntaxOk && P.renderable && okToks canonName true (canonLays P.items) P.toks
+
+/-- `render (Layout.canon P) P`, assembled by the model, against `Prog.image`: `none` = agree / skipped -/
+def renderCheck (flag : Bool) (P : Prog) : Option String :=
+  if canonOk P then
+    let m := canonOutcome (assemble flag [] (render (Layout.canon P) P)).1
+    let s := specOutcome flag P
+    if m == s then none else some ("spec-render-mismatch " ++ m ++ " ## " ++ s)
+  else none
+
+/-- every text of an accepted, renderable program is `render L P` for a well-formed layout `L` -/
+def rangeCheck (flag : Bool) (P : Prog) (texts : List (List Char)) : Option String :=
+  if P.syntaxOk && P.renderable && (P.image flag).isSome then
+    if texts.all (Lay.inRange P) then none else some "outside-render-range"
+  else none
+
 /-- `P01 stack text₁ text₂|= items…` -/
 def handleP01 (toks : List String) : String :=
   match toks with
@@ -132,7 +167,13 @@ def handleP01 (toks : List String) : String :=
         | some t2 =>
           let m2 := canonOutcome (assemble flag [] t2).1
           if m1 == m2 then m1 else "layout-diff " ++ m1 ++ " ## " ++ m2
-      "M " ++ m ++ " ;; S " ++ specOutcome flag { items := items }
+      let P : Prog := { items := items }
+      let texts := t1 :: (match t2 with | some t => [t] | none => [])
+      "M " ++ m ++ " ;; S " ++
+        (match renderCheck flag P, rangeCheck flag P texts with
+         | some e, _ => e
+         | none, some e => e
+         | none, none => specOutcome flag P)
     | _, _, _, _ => "bad-request"
   | _ => "bad-request"
 
